@@ -11,7 +11,17 @@ import (
 // Rng is a splitmix64 generator: every random choice of a harness run derives from one state.
 type Rng struct{ s uint64 }
 
-func NewRng(seed uint64) *Rng { return &Rng{s: seed*0x9E3779B97F4A7C15 + 0x1234567} }
+// NewRng mixes the seed thoroughly: consecutive seeds must give unrelated streams (a plain
+// splitmix state of seed*golden is the same stream shifted by one draw per seed step).
+func NewRng(seed uint64) *Rng {
+	z := seed + 0x9E3779B97F4A7C15
+	z = (z ^ (z >> 30)) * 0xBF58476D1CE4E5B9
+	z = (z ^ (z >> 27)) * 0x94D049BB133111EB
+	z = z ^ (z >> 31)
+	z = (z ^ (z >> 33)) * 0xff51afd7ed558ccd
+	z = z ^ (z >> 29)
+	return &Rng{s: z*0xD6E8FEB86659FD93 + 0x1234567}
+}
 
 func (r *Rng) U64() uint64 {
 	r.s += 0x9E3779B97F4A7C15
